@@ -42,6 +42,22 @@ theorem c38_mux_nodefault (priority : Bool) :
     (∀ (sel : List Bool) (x : Nat), oneHotMux priority sel [x] none = x) :=
   ⟨fun n data h => mux_none priority n data h, fun sel x => mux_single priority sel x⟩
 
+-- OBLIGATION c38_mux_typed : one_hot_mux on signed / mixed-width operands: the returned Value has the unified shape of all operands (incl. default) and its mathematical value (what a wider consumer sees after sign/zero extension) is exactly the selected operand's value — lowest set bit with priority, the only set bit without, the default when none — for every operand representable in its own shape
+theorem c38_mux_typed (priority : Bool) (data : List (Shp × Int)) (dflt : Option (Shp × Int)) :
+    (∀ (sel : List Bool) (i : Nat) (rest : List Bool) (s : Shp) (z : Int), sel.length = data.length →
+      sel = List.replicate i false ++ true :: rest →
+      (priority = true ∨ rest = List.replicate rest.length false) → data[i]? = some (s, z) → fits s z →
+      oneHotMuxZ priority sel data dflt = (unifyShp (data.map (·.1) ++ dflt.toList.map (·.1)), z)) ∧
+    (∀ (s : Shp) (z : Int), fits s z →
+      oneHotMuxZ priority (List.replicate data.length false) data (some (s, z)) =
+        (unifyShp (data.map (·.1) ++ [s]), z)) :=
+  ⟨fun sel i rest s z hlen hs hp hd hfit => muxZ_select priority sel data dflt i rest s z hlen hs hp hd hfit,
+   fun s z hfit => muxZ_default priority data.length data s z rfl hfit⟩
+
+/-- non-vacuity: a selected negative signed(4) operand next to an unsigned(5) one comes out as -3 in signed(6) -/
+example : oneHotMuxZ true [false, true, true] [(⟨5, false⟩, 9), (⟨4, true⟩, -3), (⟨3, true⟩, 2)] (some (⟨2, false⟩, 1))
+    = (⟨6, true⟩, -3) := by decide
+
 -- OBLIGATION c38_lowest_set : extract_lowest_set_bit (`value & -value`) keeps exactly the lowest set bit, and maps 0 to 0 (every width)
 theorem c38_lowest_set :
     (∀ (i : Nat) (rest : List Bool), lowestSet (List.replicate i false ++ true :: rest) =
@@ -158,6 +174,7 @@ end TxV.Encoders
 #print axioms TxV.Encoders.c38_mux_onehot
 #print axioms TxV.Encoders.c38_mux_default
 #print axioms TxV.Encoders.c38_mux_nodefault
+#print axioms TxV.Encoders.c38_mux_typed
 #print axioms TxV.Encoders.c38_lowest_set
 #print axioms TxV.Encoders.c38_mpe
 #print axioms TxV.Encoders.c38_mpe_elem
